@@ -347,7 +347,15 @@ def run(ctx):
     _hashseed(ctx)
     # ---- SORT-FLAG ---------------------------------------------------------
     _sort_flag(ctx)
-    common.check_canonsort(ctx, "C10/SORT-FLAG")
+    # canonical ordering itself: interpreted (shared with C17, sa.mapmodel)
+    from .. import mapmodel
+    nc, fc = mapmodel.explore_canon(ctx)
+    for (law, desc), detail in sorted(fc.items()):
+        ctx.fail("C10/SORT-FLAG", f"{law}: {desc}"[:160], f"{desc} ({detail})",
+                 m.func("caselessdict.canonsort_keys").loc(), witness=detail)
+    if not fc:
+        ctx.ok("C10/SORT-FLAG", "canonical order of sorted_keys / sorted_items / canonsort_*",
+               m.func("caselessdict.canonsort_keys").loc(), detail=f"{nc} orderings interpreted")
     common.check_canonical_orders(ctx, "C10/SORT-FLAG")
     # ---- BALANCED / order: property_items, content_lines, to_ical on abstract trees
     from .. import treemodel
@@ -580,13 +588,8 @@ def _sort_flag(ctx):
     if n_edges < 6:
         raise AnalysisError(f"only {n_edges} sorted-flag call edges found, 6 confirmed by hand")
     # (property_items itself: decided by C10/TREE-EMIT on abstract trees)
+    # Parameters.to_ical: sorted vs insertion order, decided on the function itself (E9)
+    from .. import strmodel
     pt = m.own_method("parser.Parameters.to_ical")
-    okp = False
-    for n in ast.walk(pt.node):
-        if isinstance(n, ast.If) and isinstance(n.test, ast.Name) and n.test.id == "sorted":
-            okp = any(".sort()" in dump(s) for s in n.body) and not n.orelse
-    src_items = any(isinstance(n, ast.Assign) and "list(self.items())" in dump(n.value).replace(pt.params[0], "self")
-                    for n in ast.walk(pt.node))
-    ctx.check(okp and src_items, "C10/SORT-FLAG", "Parameters.to_ical: sort only when asked",
-              "Parameters.to_ical must take list(self.items()) and sort it only under `if sorted`",
-              pt.loc(), detail="items = list(self.items()); if sorted: items.sort()")
+    strmodel.report(ctx, "C10/SORT-FLAG", strmodel.explore_params, ["order"], pt.loc(), 300,
+                    select=lambda law: law == "order")
